@@ -102,8 +102,8 @@ def run(ctx):
             e1_ = np.sqrt(abs(np.vdot(xs1 - x11, A1 @ (xs1 - x11))))
             ctx.case((bname, mname, 'one-level'), False)
             ctx.count('one-level')
-            if _nn(e1_) > e0_ * (1 + 1e-9):
-                ctx.fail('cycle-increases-energy/one-level', 'one-level hierarchy, b != 0, x0 != 0: energy error %.3g -> %.3g' % (e0_, e1_),
+            if _nn(e1_) > 1e-8 * (e0_ + np.sqrt(abs(np.vdot(xs1, A1 @ xs1)))):
+                ctx.fail('cycle-increases-energy/one-level', 'one-level hierarchy (direct solve), b != 0, x0 != 0: energy error %.3g -> %.3g, expected ~0' % (e0_, e1_),
                          dict(builder=bname, matrix=mname, levels=1))
             continue
         A0 = hier.dense_of(ml.levels[0].A)
